@@ -76,6 +76,12 @@ def _sweep_params():
                         for mode in ("inline", "manual"):
                             out.append(dict(scripts=(sc,), max_attempts=ma, sleep=sl, exponent=ex, max_sleep=ms,
                                             base=mode, ebase="E", policy="log"))
+    # attempts that take time (manual base: the worker thread sleeps inside the callable)
+    for sc in (("E", "ok"), ("E", "E", "ok"), ("E", "E", "E")):
+        for sl in (1.0, 2.0):
+            for ex in (1.0, 2.0):
+                out.append(dict(scripts=(sc,), max_attempts=3, sleep=sl, exponent=ex, max_sleep=120.0, base="manual",
+                                ebase="E", policy="log", dur=0.75))
     # exception_base variants
     for sc in (("K", "ok"), ("K", "E", "ok"), ("E", "K", "K"), ("X",)):
         for eb in ("E", "KE", "E+KE"):
@@ -91,9 +97,16 @@ def _sched_params():
         for sl in (0.0, 1.0):
             out.append(dict(scripts=scs, max_attempts=3, sleep=sl, exponent=2.0, max_sleep=120.0, base="manual",
                             ebase="E", policy="log"))
+    # two delegate workers: attempts of different submissions finish concurrently (two threads in the
+    # executor's job list at once)
+    for scs in ((("ok",), ("ok",)), (("E", "ok"), ("E", "ok")), (("ok",), ("E", "ok")), (("E", "E", "ok"), ("ok",)), (("X",), ("E", "ok"))):
+        out.append(dict(scripts=scs, max_attempts=3, sleep=1.0, exponent=1.0, max_sleep=120.0, base="manual",
+                        ebase="E", policy="log", workers=2))
     # staggered: the second submission arrives while the first one sits in a long back-off
     for scs in ((("E", "E", "ok"), ("E", "ok")), (("E", "E", "E"), ("E", "E", "ok")), (("E", "E", "ok"), ("ok",))):
-        for stagger in (1.5, 2.0):
+        # 1.0 and 3.0: the second submission's first attempt ends at the very instant a retry of the
+        # first one becomes due (two threads inside the job list at once)
+        for stagger in (1.0, 1.5, 2.0, 3.0):
             out.append(dict(scripts=scs, max_attempts=3, sleep=1.0, exponent=2.0, max_sleep=120.0, base="manual",
                             ebase="E", policy="log", stagger=stagger))
     return out
@@ -124,12 +137,15 @@ def body(mc, p):
     else:
         ex = RetryExecutor(base, retry_policy=CustomPolicy(mc, "custom", pk, sleep=p["sleep"]))
     fns, fs = [], []
+    dur = p.get("dur", 0.0)
     for j, sc in enumerate(p["scripts"]):
         entries = [OUT[o] if o in OUT else ("ret", o) for o in sc]
-        fn = Script(mc, "fn%d" % j, entries)
+        # dur > 0: the callable takes (virtual) time: back-off counts from the END of an attempt
+        fn = Script(mc, "fn%d" % j, entries, duration=dur)
         fns.append(fn)
     if p["base"] == "manual":
-        mc.spawn(base.worker_loop, "worker", client=False)
+        for w in range(p.get("workers", 1)):
+            mc.spawn(base.worker_loop, "worker%d" % w, client=False)
 
     def submit(j):
         if percall is not None:
@@ -156,7 +172,7 @@ def body(mc, p):
             mc.spawn(sub(j), "sub%d" % j)
         mc.wait_until(lambda: all(s is not None for s in slots), timeout=5)
         fs = slots
-    mc.sleep(30)
+    mc.sleep(8 if p.get("workers") == 2 else 30)
     outs = []
     for j, f in enumerate(fs):
         snap = snapshot(f) if f is not None else ("missing", None)
@@ -260,6 +276,9 @@ harness("c05.sched", prop="C05", traced=(), horizon=80, params=_sched_params())(
 oracle("c05.sched")(check)
 harness("c05.sched.lines", prop="C05", traced=("retry",), horizon=80, params=_sched_params())(body)
 oracle("c05.sched.lines")(check)
+harness("c05.twoworkers.lines", prop="C05", traced=("retry",), horizon=80,
+        params=[q for q in _sched_params() if q.get("workers") == 2])(body)
+oracle("c05.twoworkers.lines")(check)
 harness("c05.policy", prop="C05", traced=(), horizon=80, params=_policy_params())(body)
 oracle("c05.policy")(check)
 
@@ -267,9 +286,12 @@ PLAN = {
     "quick": [dict(harness="c05.sweep", bound=0),
               dict(harness="c05.sched", bound=2),
               dict(harness="c05.sched.lines", bound=1),
+              dict(harness="c05.twoworkers.lines", bound=2, select=lambda p: p["scripts"] == (("ok",), ("ok",))),
+              dict(harness="c05.twoworkers.lines", bound=1),
               dict(harness="c05.policy", bound=1)],
     "thorough": [dict(harness="c05.sweep", bound=1),
                  dict(harness="c05.sched", bound=3),
-                 dict(harness="c05.sched.lines", bound=2),
+                 dict(harness="c05.sched.lines", bound=2, select=lambda p: len(p["scripts"]) == 1 or p.get("stagger") in (1.0, 3.0)),
+                 dict(harness="c05.twoworkers.lines", bound=2),
                  dict(harness="c05.policy", bound=2)],
 }
